@@ -4,8 +4,10 @@
 (* of the specification?  The trace (ndjson, file named by the environment *)
 (* variable TRACE) has one line per linearisation point:                   *)
 (*   reset                    start of a session (fresh zero policy)       *)
-(*   build  call, snap        one builder call returned; snapshot after it *)
-(*   call   c, entry          a Sanitize* call starts                      *)
+(*   build  pid, call, snap, others   one builder call on policy pid        *)
+(*                            returned; its snapshot and those of the      *)
+(*                            other live policies                          *)
+(*   call   c, pid, entry     a Sanitize* call on policy pid starts        *)
 (*   tok    c, tok, skip, cnt, stack, mrst, called, after, writes          *)
 (*                            one token at the top of the loop with the    *)
 (*                            loop state BEFORE it is processed, what      *)
@@ -30,8 +32,9 @@ Tr      == TLCGet(44)
 CONSTANT CheckAttrs
 
 VARIABLES l,      \* next line of Tr
-          div     \* lines at which the real code left the specification
-tvars == <<pol, st, inp, out, l, div>>
+          div,    \* lines at which the real code left the specification
+          pols    \* the live policies of the session: policy id -> policy
+tvars == <<pol, st, inp, out, l, div, pols>>
 
 StOf(e) == [skip |-> e.skip, cnt |-> e.cnt, stack |-> e.stack, mrst |-> e.mrst]
 
@@ -45,23 +48,28 @@ Resync(i) == IF i > Len(Tr) THEN i
              ELSE IF Tr[i].ev \in {"call", "reset", "build"} THEN i
              ELSE Resync(i + 1)
 
-TraceInit == pol = Blank /\ st = St0 /\ inp = <<>> /\ out = <<>> /\ l = 1 /\ div = <<>>
+TraceInit == pol = Blank /\ st = St0 /\ inp = <<>> /\ out = <<>> /\ l = 1 /\ div = <<>> /\ pols = <<>>
 
 Diverge == /\ div' = Append(div, l)
            /\ l' = Resync(l + 1)
-           /\ UNCHANGED <<pol, st, inp, out>>
+           /\ UNCHANGED <<pol, st, inp, out, pols>>
 
-OnReset(e) == /\ pol' = Blank /\ st' = St0 /\ inp' = <<>> /\ out' = <<>>
+OnReset(e) == /\ pol' = Blank /\ st' = St0 /\ inp' = <<>> /\ out' = <<>> /\ pols' = <<>>
               /\ l' = l + 1 /\ UNCHANGED div
 
+\* a builder call on policy e.pid returned; e.snap is its snapshot, e.others the snapshots of the other
+\* live policies of the session (which the call must not have touched)
 OnBuild(e) ==
-  LET p2 == Apply(e.call, pol)
-  IN  IF p2 = PolOfJson(e.snap)
-      THEN pol' = p2 /\ l' = l + 1 /\ UNCHANGED <<st, inp, out, div>>
-      ELSE \* the real builder left the specification: continue with the real policy
-           /\ pol' = PolOfJson(e.snap) /\ div' = Append(div, l) /\ l' = l + 1 /\ UNCHANGED <<st, inp, out>>
+  LET cur == IF e.pid \in DOMAIN pols THEN pols[e.pid] ELSE Blank
+      p2  == Apply(e.call, cur)
+      real == PolOfJson(e.snap)
+      othersOK == \A k \in DOMAIN e.others : e.others[k].pid \in DOMAIN pols /\ PolOfJson(e.others[k].snap) = pols[e.others[k].pid]
+  IN  /\ pols' = Put(pols, e.pid, real)          \* on a mismatch continue with the real policy
+      /\ div' = IF p2 = real /\ othersOK THEN div ELSE Append(div, l)
+      /\ l' = l + 1 /\ UNCHANGED <<pol, st, inp, out>>
 
-OnCall(e) == /\ pol' = InitP(pol) /\ st' = St0 /\ inp' = <<>> /\ out' = <<>>
+OnCall(e) == /\ pol' = InitP(pols[e.pid]) /\ pols' = Put(pols, e.pid, InitP(pols[e.pid]))
+             /\ st' = St0 /\ inp' = <<>> /\ out' = <<>>
              /\ l' = l + 1 /\ UNCHANGED div
 
 TokGood(e) ==
@@ -79,12 +87,12 @@ OnTok(e) ==
        IN  /\ st' = StepB(pol, st, e.tok, b)
            /\ inp' = Append(inp, e.tok)
            /\ out' = out \o EmitB(pol, e.tok, after, b)
-           /\ l' = l + 1 /\ UNCHANGED <<pol, div>>
+           /\ l' = l + 1 /\ UNCHANGED <<pol, div, pols>>
   ELSE Diverge
 
 OnRet(e) ==
   IF st = StOf(e) /\ ~e.panic /\ e.ended /\ ~e.err
-  THEN l' = l + 1 /\ UNCHANGED <<pol, st, inp, out, div>>
+  THEN l' = l + 1 /\ UNCHANGED <<pol, st, inp, out, div, pols>>
   ELSE Diverge
 
 TraceNext ==
